@@ -54,3 +54,9 @@ def replay_resend(ctx, cx):
     r = sh(args, timeout=60)
     if r.returncode >= 64 or r.returncode < 0: return False, 'driver problem rc=%s: %s' % (r.returncode, r.stdout.strip()[-300:])
     return bool(r.returncode & 4), r.stdout.strip()[-400:].replace('\n', ' | ')
+
+def replay_process(ctx, cx):
+    c = cx.get('cx', cx); exe = native_driver(ctx)
+    r = sh([exe, 'reject', str(int(c.get('cx_n', 1))), str(int(c.get('cx_r', 1))), str(int(c.get('cx_fail', 1))), str(int(c.get('cx_kind', 0)))], timeout=60)
+    if r.returncode >= 64 or r.returncode < 0: return False, 'driver problem rc=%s: %s' % (r.returncode, r.stdout.strip()[-300:])
+    return bool(r.returncode & 1), r.stdout.strip()[-400:].replace('\n', ' | ')
